@@ -4,6 +4,7 @@
 //@harness name=postfilter_len0_is_identity tier=quick label=proved props=C14
 //@harness name=postfilter_len1_is_identity tier=quick label=proved props=C14
 //@harness name=postfilter_len2_is_identity tier=quick label=proved props=C14
+//@harness name=hole_sumsq_contract tier=quick label=bounded(3-taps,concrete-values) props=C14 timeout=600
 use super::*;
 
 /// beta = 0 (or any non-positive / NaN beta) changes nothing, bit for bit
@@ -45,3 +46,17 @@ fn postfilter_len1_is_identity() { short_is_identity(1); kani::cover!(true); }
 #[kani::proof]
 #[kani::unwind(5)]
 fn postfilter_len2_is_identity() { short_is_identity(2); kani::cover!(true); }
+
+/// hole `sumsq` of Verus unit b2en (the `iter().map(|x| x * x).sum()` tail of CoefficientsT::b2en), pasted
+/// verbatim: every tap enters squared, once, nothing else
+#[kani::proof]
+#[kani::unwind(6)]
+fn hole_sumsq_contract() {
+    let ir: Vec<f64> = vec![1.5, -2.0, 0.25];
+    let r: f64 = /*@HOLE sumsq@*/;
+    assert!(r == 2.25 + 4.0 + 0.0625);
+    let ir: Vec<f64> = vec![3.0];
+    let r1: f64 = /*@HOLE sumsq@*/;
+    assert!(r1 == 9.0);
+    kani::cover!(true);
+}
